@@ -203,3 +203,303 @@ contract(Contract(
          "sentinel_parser.parse_known_args(sys.argv[1:])", ["C16"]),
     ],
 ))
+
+# --------------------------------------------------------------------------- main
+OPTION_KINDS = {
+    "files": "list[str]", "output": "str", "width": "int", "plaintext": "bool", "semantic": "bool",
+    "cleanups": "bool", "smartquotes": "bool", "ellipses": "bool", "inplace": "bool", "nobackup": "bool",
+    "version": "bool", "list_spacing": "enum:ListSpacing", "extend_include": "list[str]",
+    "exclude": "opt[list[str]]", "extend_exclude": "list[str]", "respect_gitignore": "bool",
+    "force_exclude": "bool", "list_files": "bool", "files_max_size": "int", "skill_instructions": "bool",
+    "install_skill": "bool", "agent_base": "opt[str]", "docs": "bool", "include": "opt[list[str]]",
+}
+
+
+def _live_option_fields():
+    cls = getattr(extract.live_module(M), "Options")
+    return [f.name for f in dataclasses.fields(cls)]
+
+
+def symbolic_options(ex, tag="options"):
+    fields = {}
+    for f in _live_option_fields():
+        k = OPTION_KINDS.get(f)
+        if k is None:
+            raise GenError("Options.%s has no kind in the contract table (contract drift)" % f)
+        fields[f] = ex.mk(k, "%s.%s" % (tag, f))
+    return VObj("Options", fields)
+
+
+def parse_args_model(ex, node, args, kwargs):
+    o = symbolic_options(ex)
+    explicit = VSet({f: z3.Bool("explicit!" + f) for f in CONFIGURABLE})
+    is_auto = Sym(z3.Bool("is_auto"), "bool")
+    ex.log.append(("PARSE_ARGS", {"args": args[0] if args else kwargs.get("args")}, (o, explicit, is_auto)))
+    return (o, explicit, is_auto)
+
+
+def merge_model(ex, node, args, kwargs):
+    names = ["cli_opts", "config", "is_auto", "explicit_flags"]
+    b = dict(zip(names, args))
+    b.update(kwargs)
+    opts = b["cli_opts"]
+    ex.log.append(("MERGE", dict(b), None))
+    if isinstance(opts, VObj):
+        for f in CONFIGURABLE:
+            if f in opts.fields:
+                opts.fields[f] = ex.fresh(OPTION_KINDS[f], "merged." + f)
+    return opts
+
+
+def E(ex, *names):
+    return [(i, e) for i, e in enumerate(ex.log) if e[0] in names]
+
+
+def Tb(ex, x):
+    return ex.b(ex.truth(x))
+
+
+def main_exit_code(ex):
+    """0 on success, 1 for usage errors / ValueError from the file layer, 2 for other failures; and the
+    exit code is 0 only if the requested action was performed."""
+    env = ex.envs[0]
+    res = env["result"]
+    rf = E(ex, "REFORMAT_FILES")
+    pa = E(ex, "PARSE_ARGS")
+    if len(pa) != 1:
+        return False
+    options = pa[0][1][2][0]
+    early = z3.Or(*[Tb(ex, options.fields[k]) for k in ("version", "install_skill", "skill_instructions", "docs")])
+    nofiles = ex.z(ex.length(options.fields["files"])) == 0
+    failed = env.get("_rf_raised")
+    conds = []
+    # no input => 1 and nothing but messages to stderr
+    others = [e for e in ex.log if e[0] not in ("PARSE_ARGS", "PRINT_STDERR", "PRINT_STDOUT", "VERSION", "INSTALL_SKILL",
+                                                 "SKILL_CONTENT", "DOCS_CONTENT")]
+    if not rf and not E(ex, "RESOLVE"):
+        # early exits
+        if others:
+            return False
+        return z3.And(z3.Implies(z3.And(z3.Not(early), nofiles), ex.z(res) == 1),
+                      z3.Implies(early, ex.z(res) == 0))
+    return True
+
+
+def main_usage_no_effects(ex):
+    """C15: no input => exit 1 without touching anything (only stderr messages)."""
+    pa = E(ex, "PARSE_ARGS")
+    options = pa[0][1][2][0]
+    nofiles = ex.z(ex.length(options.fields["files"])) == 0
+    early = z3.Or(*[Tb(ex, options.fields[k]) for k in ("version", "install_skill", "skill_instructions", "docs")])
+    touched = [e for e in ex.log if e[0] in ("REFORMAT_FILES", "RESOLVE", "MERGE", "LOAD_CONFIG", "FIND_CONFIG")]
+    if touched:
+        return z3.Not(z3.And(nofiles, z3.Not(early)))
+    return True
+
+
+def main_order(ex):
+    """C16: config is searched from the cwd, loaded and merged (with the explicit_flags / is_auto that
+    _parse_args returned, into the very Options object used afterwards) before files are resolved and
+    before anything is formatted."""
+    pa = E(ex, "PARSE_ARGS")
+    options, explicit, is_auto = pa[0][1][2]
+    find, load, merge = E(ex, "FIND_CONFIG"), E(ex, "LOAD_CONFIG"), E(ex, "MERGE")
+    later = E(ex, "RESOLVE", "REFORMAT_FILES")
+    if not later:
+        return True
+    if len(find) != 1 or find[0][0] > later[0][0]:
+        return False
+    conds = [Tb(ex, ex.eq(find[0][1][1]["start_dir"], ex.wrap(ex.th.uf("call_Path_cwd", ex.sort_of("ref"))(), "ref", "Path")))]
+    found = find[0][1][2]
+    if len(load) > 1 or len(merge) > 1 or len(load) != len(merge):
+        return False
+    if merge:
+        m = merge[0][1][1]
+        if not (find[0][0] < load[0][0] < merge[0][0] < later[0][0]):
+            return False
+        if m["cli_opts"] is not options or m["explicit_flags"] is not explicit or m["is_auto"] is not is_auto:
+            return False
+        conds.append(Tb(ex, ex.eq(load[0][1][1]["config_path"], found.val)))
+        conds.append(Tb(ex, ex.eq(m["config"], load[0][1][2])))
+        conds.append(z3.Not(found.is_none))
+    else:
+        conds.append(found.is_none)
+    rs = E(ex, "RESOLVE")
+    if rs and rs[0][1][1]["options"] is not options:
+        return False
+    return z3.And(*conds)
+
+
+def main_codes(ex):
+    env = ex.envs[0]
+    res = ex.z(env["result"])
+    rf = E(ex, "REFORMAT_FILES")
+    pa = E(ex, "PARSE_ARGS")
+    options = pa[0][1][2][0]
+    if rf:
+        st = ex.rf_status
+        want = {"ok": 0, "ValueError": 1}.get(st, 2)
+        return res == want
+    if E(ex, "RESOLVE"):
+        return z3.And(res == 0, Tb(ex, options.fields["list_files"]))
+    return True
+
+
+def rf_handler_status(ex, bound, result):
+    ex.rf_status = "ok"
+    return None
+
+
+def reformat_files_model(ex, node, args, kwargs):
+    """uninterpreted effect that may raise ValueError or another Exception; records which"""
+    from vfcore.explore import Unit
+    spec = Callee("effect", ret="none", effect="REFORMAT_FILES", target="flowmark.reformat_api:reformat_files")
+    ex.rf_status = "ok"
+    r = ex.unit.call_callee(ex, "reformat_files", spec, args, kwargs, node)
+    k = ex.choose(3, "reformat_files raises")
+    if k == 1:
+        ex.rf_status = "ValueError"
+        raise RaiseSig(VExc("ValueError"), "reformat_files")
+    if k == 2:
+        ex.rf_status = "OSError"
+        raise RaiseSig(VExc("OSError"), "reformat_files")
+    return r
+
+
+MAIN_PASS = {p: Clause("arg_%s == options.%s" % (p, p), props=["C15", "C16"] if p in CONFIGURABLE else ["C15"])
+             for p in ("output", "width", "inplace", "nobackup", "plaintext", "semantic", "cleanups", "smartquotes",
+                       "ellipses", "list_spacing")}
+MAIN_PASS["make_parents"] = Clause("arg_make_parents == True", props=["C15"])
+MAIN_PASS["files"] = Clause(lambda ex: ex.cur_call["files"] is ex.envs[0]["resolved_files"]
+                            and any(e[0] == "RESOLVE" and e[2] is ex.envs[0]["resolved_files"] for e in ex.log), props=["C15"])
+
+contract(Contract(
+    target=M + ":main",
+    props=["C15", "C16", "C14"],
+    params={"args": "opt[list[str]]"},
+    calls={
+        "_parse_args": Callee("custom", handler=parse_args_model),
+        "importlib.metadata.version": Callee("effect", ret="str", effect="VERSION", raises=("PackageNotFoundError",), sig=["name"]),
+        "install_skill": Callee("effect", ret="none", effect="INSTALL_SKILL", sig=["agent_base"]),
+        "get_skill_content": Callee("effect", ret="str", effect="SKILL_CONTENT", sig=[]),
+        "get_docs_content": Callee("effect", ret="str", effect="DOCS_CONTENT", sig=[]),
+        "Path": Callee("uf", ret="ref:Path", sig=["p"]),
+        "Path.cwd": Callee("uf", ret="ref:Path", sig=[]),
+        "find_config_file": Callee("effect", ret="opt[ref:Path]", effect="FIND_CONFIG", target="flowmark.config:find_config_file"),
+        "load_config": Callee("effect", ret="ref:FlowmarkConfig", effect="LOAD_CONFIG", target="flowmark.config:load_config"),
+        "merge_cli_with_config": Callee("custom", handler=merge_model),
+        "_resolve_files": Callee("effect", ret="list[str]", effect="RESOLVE", raises=("Exception",), target=M + ":_resolve_files"),
+        "reformat_files": Callee("custom", handler=reformat_files_model),
+    },
+    at_call={"reformat_files": MAIN_PASS},
+    loops={0: Loop(inv={}, decreases="len(resolved_files) - _i")},
+    raises=("Exception",),
+    ensures={
+        "exit_code.early": Clause(main_exit_code, props=["C15"]),
+        "exit_code.run": Clause(main_codes, props=["C15", "C14"]),
+        "usage.no_effects": Clause(main_usage_no_effects, props=["C15", "C14"]),
+        "order": Clause(main_order, props=["C16"]),
+    },
+    ensures_raise={
+        # only a failure of file resolution may escape main; nothing has been formatted then
+        "no_format_after_escape": Clause(lambda ex: not E(ex, "REFORMAT_FILES") and bool(E(ex, "RESOLVE")) is False or
+                                         (not E(ex, "REFORMAT_FILES")), props=["C15", "C14"]),
+    },
+    canaries=[
+        ("semantic=options.semantic,", "semantic=options.cleanups,", ["C15"]),
+        ("        return 1\n    except Exception as e:", "        return 0\n    except Exception as e:", ["C15", "C14"]),
+        ("merge_cli_with_config(options, config, is_auto, explicit_flags)", "merge_cli_with_config(options, config, False, explicit_flags)", ["C16"]),
+        ("resolved_files = _resolve_files(options)", "resolved_files = options.files", ["C15"]),
+        ("config_path = find_config_file(Path.cwd())", "config_path = find_config_file(Path('.'))", ["C16"]),
+        ("            make_parents=True,", "            make_parents=False,", ["C15"]),
+    ],
+))
+
+# --------------------------------------------------------------------------- _resolve_files
+RESOLVER_OPTS = ("extend_include", "exclude", "extend_exclude", "respect_gitignore", "force_exclude", "files_max_size")
+
+
+def resolve_setup(ex):
+    ex.envs[0]["options"] = symbolic_options(ex)
+
+
+def resolver_ctor(ex, node, args, kwargs):
+    cfg = args[0] if args else kwargs.get("config")
+    ex.log.append(("NEW_RESOLVER", {"config": cfg}, None))
+    return VObj("FileResolver", {"config": cfg})
+
+
+def same_value(ex, a, b):
+    from contracts.config import same
+    return same(ex, a, b)
+
+
+def resolver_config_from_options(ex):
+    """C16 has_effect / C17: each file-discovery setting of Options reaches FileResolverConfig under its own name"""
+    cfgs = [e for e in ex.log if e[0] == "NEW_RESOLVER"]
+    if not cfgs:
+        return True
+    cfg = cfgs[0][1]["config"]
+    opts = ex.old_envs[0]["options"]
+    if not isinstance(cfg, VObj) or cfg.cls != "FileResolverConfig":
+        return False
+    conds = [same_value(ex, cfg.fields[k], opts.fields[k]) for k in RESOLVER_OPTS]
+    if "include" in opts.fields:
+        inc = opts.fields["include"]
+        default = list(extract.live_module("flowmark.file_resolver.defaults").DEFAULT_INCLUDES)
+        conds.append(z3.Implies(z3.Not(inc.is_none), same_value(ex, cfg.fields["include"], inc.val)))
+        conds.append(z3.Implies(inc.is_none, same_value(ex, cfg.fields["include"], default)))
+    return z3.And(*conds)
+
+
+def resolve_bypass(ex):
+    """without directories / globs / --list-files the arguments pass through unchanged, in order"""
+    env = ex.envs[0]
+    opts = ex.old_envs[0]["options"]
+    made = [e for e in ex.log if e[0] in ("NEW_RESOLVER", "RESOLVE_PATHS")]
+    needs = ex.th.uf("call__needs_file_resolution", Int, z3.ArraySort(Int, ex.th.Str), z3.BoolSort())
+    if not made:
+        return env["result"] is env["options"].fields["files"]
+    return True
+
+
+def resolve_result(ex):
+    """the resolver gets every argument except '-', and '-' stays first when it was given"""
+    env = ex.envs[0]
+    calls = [e for e in ex.log if e[0] == "RESOLVE_PATHS"]
+    if not calls:
+        return True
+    res = env["result"]
+    stdin_present = env["stdin_present"]
+    n = ex.z(ex.length(res))
+    first_dash = z3.And(n >= 1, Tb(ex, ex.eq(ex.list_get(ex.as_vlist(res), 0), "-")))
+    return z3.Implies(Tb(ex, stdin_present), first_dash)
+
+
+contract(Contract(
+    target=M + ":_resolve_files",
+    props=["C17", "C16"],
+    params={"options": "obj:Options"},
+    setup=resolve_setup,
+    types={"result": "list[str]"},
+    calls={
+        "_needs_file_resolution": Callee("uf", ret="bool", sig=["files"]),
+        "FileResolverConfig": dataclass_ctor("flowmark.file_resolver.types", "FileResolverConfig"),
+        "FileResolver": Callee("custom", handler=resolver_ctor),
+        "FileResolver.resolve": Callee("effect", ret="list[ref:Path]", effect="RESOLVE_PATHS", sig=["self", "paths"],
+                                       raises=("FileNotFoundError",)),
+    },
+    at_call={"FileResolver.resolve": {"no_stdin_marker": Clause("all(p != '-' for p in arg_paths)", props=["C17"])}},
+    raises=("FileNotFoundError",),
+    ensures={
+        "config_from_options": Clause(resolver_config_from_options, props=["C16", "C17"]),
+        "bypass": Clause(resolve_bypass, props=["C17"]),
+        "stdin_first": Clause(resolve_result, props=["C17"]),
+    },
+    canaries=[
+        ("extend_exclude=options.extend_exclude,", "extend_exclude=options.extend_include,", ["C16", "C17"]),
+        ("        force_exclude=options.force_exclude,\n", "", ["C16", "C17"]),
+        ('resolvable = [f for f in options.files if f != "-"]', "resolvable = options.files", ["C17"]),
+        ('        result.insert(0, "-")', '        result.append("-")', ["C17"]),
+    ],
+))
